@@ -39,6 +39,8 @@ struct Opts {
     ver_repo: Option<String>,
     ren_bin: Option<PathBuf>,
     ren_repo: Option<String>,
+    base_bin: Option<PathBuf>,
+    base_repo: Option<String>,
 }
 
 fn parse_opts() -> Opts {
@@ -61,6 +63,8 @@ fn parse_opts() -> Opts {
         ver_repo: std::env::var("VERIF_VER_REPO").ok().filter(|s| !s.is_empty()),
         ren_bin: std::env::var("VERIF_REN_BIN").ok().filter(|s| !s.is_empty()).map(PathBuf::from),
         ren_repo: std::env::var("VERIF_REN_REPO").ok().filter(|s| !s.is_empty()),
+        base_bin: std::env::var("VERIF_BASE_BIN").ok().filter(|s| !s.is_empty()).map(PathBuf::from),
+        base_repo: std::env::var("VERIF_BASE_REPO").ok().filter(|s| !s.is_empty()),
     };
     let mut i = 1;
     while i < args.len() {
@@ -248,6 +252,7 @@ fn setup(o: &Opts, scratch: &Path, only_complete_reference: bool) -> Result<Ctx,
         alt: false,
         ver: false,
         ren: false,
+        base: false,
         env: vec![],
         rand: 1,
     };
@@ -292,7 +297,7 @@ fn setup(o: &Opts, scratch: &Path, only_complete_reference: bool) -> Result<Ctx,
             let alauncher = Launcher { bin_dir: bin.clone(), allowed: allowed_cpus(), child_timeout: Duration::from_secs(180) };
             let agold = Paths::new(scratch.join("alt-gold").join("xdg"));
             dirstate::wipe(&agold).unwrap_or_else(|e| harness_fail(&e.to_string()));
-            let asession = Session { cpus: 1, faults: vec![], ops: vec![Op::Open { slot: 0, mode: Mode::Disk, plan: Plan::default() }], expected_docs: ashipped.docs(), repo: repo.clone(), alt: true, ver: false, ren: false, env: vec![], rand: 1 };
+            let asession = Session { cpus: 1, faults: vec![], ops: vec![Op::Open { slot: 0, mode: Mode::Disk, plan: Plan::default() }], expected_docs: ashipped.docs(), repo: repo.clone(), alt: true, ver: false, ren: false, base: false, env: vec![], rand: 1 };
             let aout = alauncher.simnode(&agold, &scratch.join("alt-gold"), "gold", &asession, 0);
             let ainfo = dirstate::inspect(&agold, &ashipped);
             let (av, ah) = match &ainfo.meta {
@@ -324,7 +329,7 @@ fn setup(o: &Opts, scratch: &Path, only_complete_reference: bool) -> Result<Ctx,
             let alauncher = Launcher { bin_dir: bin.clone(), allowed: allowed_cpus(), child_timeout: Duration::from_secs(180) };
             let agold = Paths::new(scratch.join("ver-gold").join("xdg"));
             dirstate::wipe(&agold).unwrap_or_else(|e| harness_fail(&e.to_string()));
-            let asession = Session { cpus: 1, faults: vec![], ops: vec![Op::Open { slot: 0, mode: Mode::Disk, plan: Plan::default() }], expected_docs: ashipped.docs(), repo: repo.clone(), alt: false, ver: true, ren: false, env: vec![], rand: 1 };
+            let asession = Session { cpus: 1, faults: vec![], ops: vec![Op::Open { slot: 0, mode: Mode::Disk, plan: Plan::default() }], expected_docs: ashipped.docs(), repo: repo.clone(), alt: false, ver: true, ren: false, base: false, env: vec![], rand: 1 };
             let aout = alauncher.simnode(&agold, &scratch.join("ver-gold"), "gold", &asession, 0);
             let ainfo = dirstate::inspect(&agold, &ashipped);
             let (av, ah) = match &ainfo.meta {
@@ -356,7 +361,7 @@ fn setup(o: &Opts, scratch: &Path, only_complete_reference: bool) -> Result<Ctx,
             let alauncher = Launcher { bin_dir: bin.clone(), allowed: allowed_cpus(), child_timeout: Duration::from_secs(180) };
             let agold = Paths::new(scratch.join("ren-gold").join("xdg"));
             dirstate::wipe(&agold).unwrap_or_else(|e| harness_fail(&e.to_string()));
-            let asession = Session { cpus: 1, faults: vec![], ops: vec![Op::Open { slot: 0, mode: Mode::Disk, plan: Plan::default() }], expected_docs: ashipped.docs(), repo: repo.clone(), alt: false, ver: false, ren: true, env: vec![], rand: 1 };
+            let asession = Session { cpus: 1, faults: vec![], ops: vec![Op::Open { slot: 0, mode: Mode::Disk, plan: Plan::default() }], expected_docs: ashipped.docs(), repo: repo.clone(), alt: false, ver: false, ren: true, base: false, env: vec![], rand: 1 };
             let aout = alauncher.simnode(&agold, &scratch.join("ren-gold"), "gold", &asession, 0);
             let ainfo = dirstate::inspect(&agold, &ashipped);
             let (av, ah) = match &ainfo.meta {
@@ -381,8 +386,41 @@ fn setup(o: &Opts, scratch: &Path, only_complete_reference: bool) -> Result<Ctx,
             }
         }
     }
+    let mut base = None;
+    if let (Some(bin), Some(repo)) = (&o.base_bin, &o.base_repo) {
+        if bin.join("simnode").is_file() {
+            let ashipped = shipped::load(repo).unwrap_or_else(|e| harness_fail(&format!("baseline data: {e}")));
+            let alauncher = Launcher { bin_dir: bin.clone(), allowed: allowed_cpus(), child_timeout: Duration::from_secs(180) };
+            let agold = Paths::new(scratch.join("base-gold").join("xdg"));
+            dirstate::wipe(&agold).unwrap_or_else(|e| harness_fail(&e.to_string()));
+            let asession = Session { cpus: 1, faults: vec![], ops: vec![Op::Open { slot: 0, mode: Mode::Disk, plan: Plan::default() }], expected_docs: ashipped.docs(), repo: repo.clone(), alt: false, ver: false, ren: false, base: true, env: vec![], rand: 1 };
+            let aout = alauncher.simnode(&agold, &scratch.join("base-gold"), "gold", &asession, 0);
+            let ainfo = dirstate::inspect(&agold, &ashipped);
+            let (av, ah) = match &ainfo.meta {
+                dirstate::MetaInfo::Parsed { version: Some(v), hash: Some(h) } => (v.clone(), h.clone()),
+                _ => (String::new(), String::new()),
+            };
+            if aout.harness_error().is_none() && aout.exit == (Exit::Code { code: 0 }) {
+                let agold_index = scratch.join("base-gold-index");
+                dirstate::copy_dir(&agold.index(), &agold_index).unwrap_or_else(|e| harness_fail(&e.to_string()));
+                let areference = Reference {
+                    meta_text: ainfo.meta_text.clone().unwrap_or_default(),
+                    version: av,
+                    hash: ah,
+                    gold_index: agold_index,
+                    foreign_index: reference.foreign_index.clone(),
+                    foreign_schema_index: reference.foreign_schema_index.clone(),
+                    foreign_same_shape_index: reference.foreign_same_shape_index.clone(),
+                };
+                base = Some(Box::new(Alt { launcher: alauncher, repo: repo.clone(), shipped: ashipped, reference: areference }));
+            } else {
+                println!("simctl: note: the baseline build did not complete a clean start; its histories are skipped");
+            }
+        }
+    }
     Ok(Ctx {
         caps_strace: strace_usable(),
+        base,
         ren,
         qprime_ties,
         alt,
@@ -832,6 +870,14 @@ fn histories_for(ctx: &Ctx, o: &Opts, prop: &str, quick: bool) -> Vec<History> {
                 let seed = derive(o.seed, "C16-state", i as u64);
                 hs.push(gen::c16_state(ctx, tag, st, if quick { Perms::Identity } else { Perms::Reverse }, seed));
             }
+            // the data directory as the tool at the recorded baseline commit leaves it (only when the tree
+            // under test differs from that commit), then this tree
+            if ctx.base.is_some() {
+                for i in 0..2u64 {
+                    let seed = derive(o.seed, "C16-base", i);
+                    hs.push(gen::c16_after_base(ctx, if quick { Perms::Identity } else { Perms::Reverse }, i == 1, seed));
+                }
+            }
             for i in 0..n(6, 64) {
                 let seed = derive(o.seed, "C16-beside", i as u64);
                 hs.push(gen::c16_beside(ctx, &mut Rng::new(seed), seed));
@@ -929,7 +975,7 @@ fn cmd_run(o: &Opts) -> i32 {
                     property: "C15".into(),
                     seed: 0,
                     label: "clean first start".into(),
-                    steps: vec![Step::Start { session: Session { cpus: 1, faults: vec![], ops: vec![Op::Open { slot: 0, mode: Mode::Disk, plan: Plan::default() }], expected_docs: 0, repo: String::new(), alt: false, ver: false, ren: false, env: vec![], rand: 0 } }],
+                    steps: vec![Step::Start { session: Session { cpus: 1, faults: vec![], ops: vec![Op::Open { slot: 0, mode: Mode::Disk, plan: Plan::default() }], expected_docs: 0, repo: String::new(), alt: false, ver: false, ren: false, base: false, env: vec![], rand: 0 } }],
                 };
                 let v = Violation { property: "C15".into(), clause: "C15.clean-start".into(), step: 0, detail: why.clone(), focus: vec![], signature: "C15.clean-start".into() };
                 let path = write_replay(o, &h, &v, json!({"note": "reference start failed; not minimised"}));
@@ -1354,7 +1400,31 @@ fn cmd_run(o: &Opts) -> i32 {
             n_ren = hs.len();
             collect(&mut st, &mut found, &hs);
         }
-        extra = json!({"contended_start_histories": n_contended, "renamed_assets_histories": n_ren, "renamed_assets": ren_note, "other_version_histories": n_ver, "other_version": ver_note, "long_life_histories": n_soak, "mixed_fault_kind_histories": n_mixed, "full_disk_histories": n_disk, "full_disk": if mount_ok { "the data directory on a tmpfs of its own whose free pages (0..=44) and free inodes (0..=18) are swept; ENOSPC comes from the kernel" } else { "skipped: this process may not mount a tmpfs" }, "two_build_histories": n_two, "two_build": two_note, "syscall_level_histories": n_sys, "syscall_injector": if strace_ok { "strace -f -e inject=<call>:signal=SIGKILL|error=<errno>:when=K around the simnode child" } else { "skipped: strace not available" },
+        // phase 5d: the tool as it was at the recorded baseline commit (only when the tree under test
+        // differs from it): its directory is what a user who updates without a version change starts from
+        let mut n_base = 0;
+        let mut base_note = "not built: the tree under test is the recorded baseline (or no baseline build was requested)".to_string();
+        if let Some(v) = &ctx.base {
+            base_note = format!("baseline build: version {}, hash {} this tree's", v.reference.version, if v.reference.hash == ctx.reference.hash { "EQUALS" } else { "differs from" });
+            let mut hs = Vec::new();
+            let sess = |base: bool, faults: Vec<Fault>, mem_first: bool| {
+                let mut s = gen::c15_session_ordered(&ctx, faults, subset.clone(), mem_first);
+                s.base = base;
+                Step::Start { session: s }
+            };
+            let mk = |label: String, steps: Vec<Step>, n: usize| History { property: "C15".into(), seed: derive(o.seed, "C15-base", n as u64), label, steps };
+            hs.push(mk("the baseline build, then this tree twice".into(), vec![sess(true, vec![], false), sess(false, vec![], false), sess(false, vec![], true)], 0));
+            hs.push(mk("this tree, the baseline build, this tree".into(), vec![sess(false, vec![], false), sess(true, vec![], false), sess(false, vec![], false), sess(false, vec![], false)], 1));
+            let pts: Vec<(String, usize)> = reached.iter().find(|r| r.iter().any(|(p, _)| p == "rebuild.before_commit")).cloned().unwrap_or_default();
+            for (p, _) in &pts {
+                let f = Fault::Kill { point: p.clone(), k: 0 };
+                let lab = gen::fault_label(&f);
+                hs.push(mk(format!("the baseline build, then this tree with {lab}, then this tree"), vec![sess(true, vec![], false), sess(false, vec![f], false), sess(false, vec![], false), sess(false, vec![], true)], hs.len()));
+            }
+            n_base = hs.len();
+            collect(&mut st, &mut found, &hs);
+        }
+        extra = json!({"baseline_build_histories": n_base, "baseline_build": base_note, "contended_start_histories": n_contended, "renamed_assets_histories": n_ren, "renamed_assets": ren_note, "other_version_histories": n_ver, "other_version": ver_note, "long_life_histories": n_soak, "mixed_fault_kind_histories": n_mixed, "full_disk_histories": n_disk, "full_disk": if mount_ok { "the data directory on a tmpfs of its own whose free pages (0..=44) and free inodes (0..=18) are swept; ENOSPC comes from the kernel" } else { "skipped: this process may not mount a tmpfs" }, "two_build_histories": n_two, "two_build": two_note, "syscall_level_histories": n_sys, "syscall_injector": if strace_ok { "strace -f -e inject=<call>:signal=SIGKILL|error=<errno>:when=K around the simnode child" } else { "skipped: strace not available" },
             "listed_states": states.len(), "undisturbed_state_probes": probes.len(), "state_x_crash_point_cells": n_cells, "seeded_deeper_histories": n_random,
             "exhaustive_over": "every listed state class x every hook point its recovery reaches x kill and fail (all sampled k per multi-hit point); other torn lengths / garbage kinds with a seeded sample of sites"});
     } else {
@@ -1768,6 +1838,7 @@ fn cmd_mkdata(o: &Opts) -> i32 {
     let mut altered = 0;
     let mut other_size = 0;
     let mut fact_index = 0usize;
+    let mut fallback: Vec<(String, Vec<u8>)> = Vec::new();
     let mut names: Vec<String> = std::fs::read_dir(&src).unwrap_or_else(|e| harness_fail(&e.to_string())).flatten().map(|e| e.file_name().to_string_lossy().to_string()).collect();
     names.sort();
     for n in names {
@@ -1818,11 +1889,18 @@ fn cmd_mkdata(o: &Opts) -> i32 {
                 enc.write_all(&r).unwrap();
                 let z = enc.finish().unwrap();
                 if attempt == 39 && out == orig {
-                    // no candidate of the original compressed size: keep one of another size rather
-                    // than leave the asset unaltered (names, uncompressed length and CRC-32 still agree)
-                    out = z.clone();
-                    altered += 1;
-                    other_size += 1;
+                    // no candidate of the original compressed size: remember one of another size (names,
+                    // uncompressed length and CRC-32 still agree). It is used when this is the one asset
+                    // that has to change, or when no asset at all could keep its size; otherwise the
+                    // asset stays as shipped, so that the other build's data differs from this one's in
+                    // nothing but content: same names, sizes, lengths, CRC-32 and time stamps.
+                    if only.is_some() {
+                        out = z.clone();
+                        altered += 1;
+                        other_size += 1;
+                    } else {
+                        fallback.push((n.clone(), z.clone()));
+                    }
                     break;
                 }
                 if z.len() <= orig.len() {
@@ -1844,6 +1922,13 @@ fn cmd_mkdata(o: &Opts) -> i32 {
             }
         }
         std::fs::write(dst.join(&n), &out).unwrap_or_else(|e| harness_fail(&e.to_string()));
+    }
+    if altered == 0 {
+        for (n, z) in &fallback {
+            std::fs::write(dst.join(n), z).unwrap_or_else(|e| harness_fail(&e.to_string()));
+            altered += 1;
+            other_size += 1;
+        }
     }
     // a partial update also ships one more asset (a copy of the largest one, under a name that
     // sorts last): the list of assets differs between the two builds, not only their content
